@@ -372,6 +372,35 @@ pub fn fixed_modular_case(k: u8) -> ModularCase {
     let zeros: [u8; 0] = [];
     let mut src = Src::new(&zeros);
     match k {
+        // 3: 21x1 RGB, RCT type 37 followed by the default squeeze (produces zero-height residual channels)
+        3 => {
+            use crate::modular::transform::*;
+            let ih = ImageHeaderSpec { width: 21, height: 1, xyb_encoded: false, modular_16bit_buffers: false, ..Default::default() };
+            let mut fh = FrameHeaderSpec::simple_modular(&ih);
+            fh.group_size_shift = 0;
+            let mut chans: Vec<Chan> = (0..3).map(|_| Chan::new(21, 1)).collect();
+            for i in 0..21 {
+                chans[0].data[i] = 0;
+                chans[1].data[i] = if i == 2 || i >= 17 { -38 } else { -40 };
+                chans[2].data[i] = -39;
+            }
+            let expected = chans.clone();
+            let range = Range { limit: 1 << 31 };
+            rct_forward(&mut chans, 0, 37, range).unwrap();
+            let mut nb_meta = 0;
+            let steps = default_squeeze_steps(&chans, 0);
+            squeeze_forward(&mut chans, &mut nb_meta, &steps, range).unwrap();
+            let chain = vec![Transform::Rct { begin_c: 0, rct_type: 37 }, Transform::Squeeze { steps, explicit: false }];
+            let g = encode_fixed_global(&mut chans, &chain, &Default::default(), &Tree::single(4));
+            let mut wr = BitWriter::new();
+            write_lf_global_preamble_plain(&mut wr);
+            wr.append(&g);
+            let sections = vec![wr.finish()];
+            let mut bytes = write_codestream_start(&ih, None, &mut src);
+            let header_len = bytes.len();
+            let layout = write_frame(&mut bytes, &fh, &ih, &sections, false, &mut src);
+            ModularCase { ih, fh, bytes, expected, n_colour: 3, classes: vec!["fixed:rct37-squeeze-21x1".into()], layout, header_len, nontrivial: true, debug: String::new() }
+        }
         // 2: multi-section frame with a permuted TOC (for feeding regressions, see C09/C11)
         2 => {
             let ih = ImageHeaderSpec {
